@@ -33,7 +33,9 @@ class LP(dns.rdata.Rdata):
 
     def _to_wire(self, file, compress=None, origin=None, canonicalize=False):
         file.write(struct.pack("!H", self.preference))
-        self.fqdn.to_wire(file, compress, origin, canonicalize)
+        # RFC 3597 section 7: LP (RFC 6742) is not in the RFC 4034 6.2 list, so its
+        # FQDN is not downcased in DNSSEC canonical form.
+        self.fqdn.to_wire(file, compress, origin, False)
 
     @classmethod
     def from_wire_parser(cls, rdclass, rdtype, parser, origin=None):
